@@ -107,7 +107,11 @@ class Report:
                 f"KNOWN-FINDING: property={self.prop_id} {f['clause']} {f['what']} (cases={n})"
             )
         rdir = ROOT / "replays" / self.prop_id
+        per_clause = Counter()
         for (clause, sig), vs in unknown:
+            per_clause[clause] += 1
+            if per_clause[clause] > 20:  # every signature is counted; only the first 20 per clause get a file
+                continue
             rdir.mkdir(parents=True, exist_ok=True)
             v = vs[0]
             path = rdir / f"{clause.replace('.', '-')}-{short_hash([clause, sig])}.json"
